@@ -188,7 +188,7 @@ def encode(d, v, ctx, o=DEFAULT_OPTS):
         else:
             out["c"] = E(d[1], v.c)
         return out
-    if k == "dcself":
+    if k in ("dcself", "dcselft"):
         out = {"v": E(d[1], v.v)}
         if v.v is None and o["drop_none_fields"]:
             del out["v"]
@@ -515,7 +515,7 @@ def decode(d, x, ctx, o=DEFAULT_OPTS):
             else:
                 kw[name] = D(e, y)
         return info["cls"](**kw)
-    if k in ("dcgen", "dcgeninh", "dcinh", "dcself", "dcfwd"):
+    if k in ("dcgen", "dcgeninh", "dcinh", "dcself", "dcselft", "dcfwd"):
         return _dec_special(d, x, ctx, o)
     raise ValueError(d)
 
@@ -546,7 +546,7 @@ def _dec_special(d, x, ctx, o):
         if "c" in x:
             kw["c"] = None if x["c"] is None else D(d[1], x["c"])
         return info["cls"](**kw)
-    if k == "dcself":
+    if k in ("dcself", "dcselft"):
         kw = dict(v=D(d[1], _need(x, "v")))
         if "nxt" in x:
             kw["nxt"] = None if x["nxt"] is None else D(d, x["nxt"])
@@ -709,7 +709,7 @@ def conforms(d, v, ctx):
     if k == "dcinh":
         return (type(v) is ctx.info[d]["cls"] and C(d[1], v.b) and type(v.a) is str
                 and (v.c is None or C(d[1], v.c)))
-    if k == "dcself":
+    if k in ("dcself", "dcselft"):
         return (type(v) is ctx.info[d]["cls"] and C(d[1], v.v) and (v.nxt is None or C(d, v.nxt))
                 and type(v.kids) is list and all(C(d, x) for x in v.kids))
     if k == "dcfwd":
